@@ -5,6 +5,7 @@ pub mod c12;
 pub mod c05;
 pub mod c13;
 pub mod c14;
+pub mod inreorg;
 pub mod c15;
 pub mod c16;
 pub mod c17;
